@@ -249,6 +249,43 @@ def first_pair(a, b):
 
 
 SHARED_ID_EVERY = 7
+SUBCLASS_EVERY = 9
+_ACCOUNT_CLS = {}
+
+
+def account_class(rating_cls):
+    """a user's subclass of the library's rating class with its own constructor signature (an application record that IS a
+    rating): instances pass every isinstance check and are valid players; the library's own copies of them are plain ratings"""
+    c = _ACCOUNT_CLS.get(rating_cls)
+    if c is None:
+        class Account(rating_cls):
+            def __init__(self, account, region, mu, sigma):
+                super().__init__(mu, sigma, account)
+                self.region = region
+        Account.__name__ = "Account"
+        c = _ACCOUNT_CLS[rating_cls] = Account
+    return c
+
+
+def with_user_subclass(teams, h):
+    """every SUBCLASS_EVERY-th game (by hash) some of the players are instances of a user subclass of the rating class"""
+    if not SUBCLASS_EVERY or h % SUBCLASS_EVERY != 4:
+        return teams
+    CALL_STATS["user_subclass_players"] = CALL_STATS.get("user_subclass_players", 0) + 1
+    out = []
+    k = 0
+    for t in teams:
+        row = []
+        for p in t:
+            if (h // 9 + k) % 2 == 0:
+                a = account_class(type(p))(p.name, "eu", p.mu, p.sigma)
+                a.id = p.id
+                row.append(a)
+            else:
+                row.append(p)
+            k += 1
+        out.append(row)
+    return out
 
 
 def run_impl_rate(g, cls=None):
@@ -257,8 +294,8 @@ def run_impl_rate(g, cls=None):
     other time, all players — are distinct objects carrying ONE id (clones of a template: deepcopy keeps the id; a shared
     guest account): ids are labels, never keys."""
     model = build_model(g, cls)
-    teams = build_teams(model, g)
     h = game_hash(g)
+    teams = with_user_subclass(build_teams(model, g), h) if cls is None else build_teams(model, g)
     if SHARED_ID_EVERY and h % SHARED_ID_EVERY == 1:
         CALL_STATS["shared_ids"] = CALL_STATS.get("shared_ids", 0) + 1
         flat = [p for t in teams for p in t]
@@ -445,8 +482,8 @@ def size(res, quick, thorough):
 def impl_teams(g, cls=None):
     """run rate on the implementation; -> list of teams of (mu, sigma) or raises"""
     model = build_model(g, cls)
-    teams = build_teams(model, g)
     h = game_hash(g)
+    teams = with_user_subclass(build_teams(model, g), h) if cls is None else build_teams(model, g)
     if SHARED_ID_EVERY and h % SHARED_ID_EVERY == 1:
         CALL_STATS["shared_ids"] = CALL_STATS.get("shared_ids", 0) + 1
         flat = [p for t in teams for p in t]
